@@ -3,6 +3,7 @@ module verif
 go 1.20
 
 require (
+	github.com/creack/pty v1.1.23
 	github.com/klauspost/compress v1.17.9
 	github.com/mattn/go-runewidth v0.0.16
 	github.com/trzsz/trzsz-go v0.0.0
@@ -15,7 +16,6 @@ require (
 	github.com/charmbracelet/lipgloss v0.12.1 // indirect
 	github.com/charmbracelet/x/ansi v0.1.4 // indirect
 	github.com/chzyer/readline v1.5.1 // indirect
-	github.com/creack/pty v1.1.23 // indirect
 	github.com/google/shlex v0.0.0-20191202100458-e7afc7fbc510 // indirect
 	github.com/lucasb-eyer/go-colorful v1.2.0 // indirect
 	github.com/mattn/go-isatty v0.0.20 // indirect
